@@ -289,7 +289,7 @@ def run(tier, seed):
         "rule": "exhaustive grid: sub-projects of duration 1..%d x absence lists (none, step 0, step 1, consecutive, duplicated, beyond the end; every calendar of 2-4 absence steps inside the run when absence is removed) saved after success / after FAILURE / never simulated "
         "x remove_absence_time_list x every ordered pair of unit times from {1,2,3,5,60} min x position of the sub-project task in the parent (alone, after an FS predecessor, before a successor, beside a worked task) x history (first use of the saved file, or after another task was "
         "configured from the same file with either flag) x (the configured parent used directly, or saved, loaded and related again; units up to 36 hours) x (parent without absence, or with "
-        "project-wide absence steps and the automatic-task flag set) x (team also assigned to the sub-project task with a worker skilled under its name; unit related several times, the real one last); "
+        "project-wide absence steps and the automatic-task flag set) x (team also assigned to the sub-project task with a worker skilled under its name; unit related several times, the real one last; sub-project result extended by insert_absence_time_list before saving; an earlier flagged run of the same parent followed by a run that omits the flag); "
         "oracle: work amount = duration (minus in-range absence steps if requested), WORKING for exactly ceil(duration*u_sub/u_parent) consecutive parent steps from the step dependencies allow, no workers, "
         "successor waits; refusal (warning, task unchanged) for unsuccessful/never simulated sub-projects; non-trivial = successful grid points with different unit times" % (4 if tier == "quick" else 6),
         "bounds": {"grid_points": len(its)},
